@@ -139,3 +139,57 @@ package actionlint
 //@ func (*parser).parseCredentials
 //@   ensures [C13] result == nil ==> len(p.errors) > old(len(p.errors))
 //@ auto_invariant ^\(\*parser\)\.: len(p.errors) >= old(len(p.errors))
+
+// C13/C08: keys are matched case-sensitively, except in the sections whose keys are user-chosen names
+// that GitHub Actions treats case-insensitively (inputs, secrets, outputs, env, with, matrix, services,
+// jobs, permissions). `caseSensitive` is the last parameter of parseMapping / parseSectionMapping.
+//@ func (*parser).parseScheduleEvent
+//@   at_call [C13 C08] (*parser).parseMapping: caseSensitive
+//@ func (*parser).parseWorkflowDispatchEvent
+//@   at_call [C13 C08] (*parser).parseSectionMapping: caseSensitive == (sec != "inputs")
+//@   at_call [C13 C08] (*parser).parseMapping: caseSensitive
+//@ func (*parser).parseRepositoryDispatchEvent
+//@   at_call [C13 C08] (*parser).parseSectionMapping: caseSensitive
+//@ func (*parser).parseWebhookEvent
+//@   at_call [C13 C08] (*parser).parseSectionMapping: caseSensitive
+//@ func (*parser).parseWorkflowCallEvent
+//@   at_call [C13 C08] (*parser).parseSectionMapping: caseSensitive == (sec == "workflow_call")
+//@   at_call [C13 C08] (*parser).parseMapping: caseSensitive
+//@ func (*parser).parseEvents
+//@   at_call [C13 C08] (*parser).parseSectionMapping: caseSensitive
+//@ func (*parser).parseEnv
+//@   at_call [C13 C08] (*parser).parseMapping: !caseSensitive
+//@ func (*parser).parseDefaults
+//@   at_call [C13 C08] (*parser).parseSectionMapping: caseSensitive
+//@ func (*parser).parseConcurrency
+//@   at_call [C13 C08] (*parser).parseSectionMapping: caseSensitive
+//@ func (*parser).parseEnvironment
+//@   at_call [C13 C08] (*parser).parseSectionMapping: caseSensitive
+//@ func (*parser).parseOutputs
+//@   at_call [C13 C08] (*parser).parseSectionMapping: !caseSensitive
+//@ func (*parser).parseMatrix
+//@   at_call [C13 C08] (*parser).parseSectionMapping: !caseSensitive
+//@ func (*parser).parseMatrixCombinations
+//@   at_call [C13 C08] (*parser).parseMapping: !caseSensitive
+//@ func (*parser).parseRawYAMLValue
+//@   at_call [C13 C08] (*parser).parseMapping: !caseSensitive
+//@ func (*parser).parseStrategy
+//@   at_call [C13 C08] (*parser).parseSectionMapping: caseSensitive
+//@ func (*parser).parseContainer
+//@   at_call [C13 C08] (*parser).parseSectionMapping: caseSensitive
+//@ func (*parser).parseServices
+//@   at_call [C13 C08] (*parser).parseSectionMapping: !caseSensitive
+//@ func (*parser).parseStep
+//@   at_call [C13 C08] (*parser).parseMapping: caseSensitive
+//@   at_call [C13 C08] (*parser).parseSectionMapping: !caseSensitive
+//@ func (*parser).parseRunsOn
+//@   at_call [C13 C08] (*parser).parseSectionMapping: caseSensitive
+//@ func (*parser).parseJob
+//@   at_call [C13 C08] (*parser).parseMapping: caseSensitive
+//@   at_call [C13 C08] (*parser).parseSectionMapping: !caseSensitive
+//@ func (*parser).parseJobs
+//@   at_call [C13 C08] (*parser).parseSectionMapping: !caseSensitive
+//@ func (*parser).parse
+//@   at_call [C13 C08] (*parser).parseMapping: caseSensitive
+//@ func (*parser).parseSectionMapping
+//@   at_call [C13 C08] (*parser).parseMapping: caseSensitive == caseSensitive0
